@@ -21,12 +21,14 @@ _c["rule"] = _c["rule"] + (
     "in-cluster config): its six lines (identity, NewServer, Listen, NewLeaderElector, Run) are re-stated in the harness, the private field "
     "myIdentity it fills is set by reflection. Scripts on a 5 s grid (the loops sleep a hard-coded 5 s): kill (silent death), restart "
     "under the same name/IP with a new or the SAME join time, connection loss follower<->leader, leader death with a designated successor "
-    "(the followers' heartbeat bodies find the leader dead first, as with the default lease), leader death + restart while the election is "
-    "held back, slow pod labelling (the promotion callback runs AFTER the followers registered); 22 fixed + 8 (quick) / 90 (thorough) "
+    "(the followers' heartbeat bodies find the leader dead first, as with the default lease), TRANSIENT PARTITIONS of followers from the "
+    "leader lasting one or two periods (every connection lost, new ones refused, then healed: the follower must hold a number again one "
+    "period after the heal - finding F17, fixed by 39ec43d, replay corpus/C10/F17.ops runs first), leader death + restart while the election is "
+    "held back, slow pod labelling (the promotion callback runs AFTER the followers registered); 26 fixed + 8 (quick) / 90 (thorough) "
     "generated scripts with ties in the join times, all scenarios concurrently; observed at every checkpoint (4 s into each period), per "
     "instance: role label, GetInfo (non-blocking: only after a bus event), GetAll; the op line carries the schedule (callbacks and loop "
     "bodies in nominal order) that the Lean LTS runs; monitor clauses C10.ha-one-leader / ha-admitted / ha-dropped / ha-total / ha-distinct "
-    "at checkpoints where the model state is quiescent or a whole period passed without event under a living lease holder, C10.ha-range "
+    "at checkpoints where the model state is quiescent or a whole period passed without event under a living lease holder with no partition in force, C10.ha-range "
     "everywhere; a scenario during which the process was starved > 200 ms is re-run (3x) and else dropped (count in the evidence). "
     "harness/testdata/c10ha_refutations.ops replays the refutations of Props/C10HaRefute on the real code (not part of the run: their "
     "stable checkpoints FAIL C10.ha-admitted on the unchanged tree)")
@@ -51,10 +53,14 @@ _c["level_text"] = _c["level_text"] + (
     "monitor round; ha_convergence_after_election - likewise from ANY reachable state once a live instance holds the lease and the "
     "election callbacks are delivered; quiescentB_iff - the driver's test is the predicate. Refuted with concrete schedules, each replayed "
     "on the real code with identical observations (Props/C10HaRefute, harness/testdata/c10ha_refutations.ops): a LIVING leader that loses "
-    "the lease keeps 1/n for ever (client-go's Run returns, nothing restarts it) while the new leader numbers the rest; a follower whose ONE "
-    "heartbeat body cannot reach the leader drops leaderService and is never admitted again; a follower that re-registers between the ping "
-    "pass and the remove pass of the leader's heartbeat body is removed BY NAME and never admitted again; orphan_stays (Props/C10HaOrphan) - "
-    "for every schedule of loop bodies such an instance stays out and keeps its stale numbering.")
+    "the lease keeps 1/n for ever (client-go's Run returns, nothing restarts it) while the new leader numbers the rest; a follower that "
+    "re-registers between the ping pass and the remove pass of the leader's heartbeat body is removed BY NAME and never numbered again; "
+    "orphan_stays (Props/C10HaOrphan) - for every schedule of loop bodies an instance without leaderService stays out and keeps its stale "
+    "numbering. Finding F17 (a follower whose ONE heartbeat body could not reach the leader dropped leaderService for good), fixed by "
+    "39ec43d: ha_orphan_follower_refuted is the statement about the code before the fix (runOld), the model is the repaired code: "
+    "hbFollow_keeps_leader, and ha_partition_heals - from every reachable state in which a live follower lost its registration through failed "
+    "heartbeat bodies and the leader is reachable again, ONE heartbeat body of the follower + ONE monitor body of the leader (2 bodies) "
+    "re-establish quiescence.")
 _c["level_note"] = _c["level_note"] + (
     "; c10ha: atomic loop bodies / callbacks, client-go election as environment, real-time grid with >= 350 ms margins and a "
-    "scheduler-lag probe; three refuted schedules are candidate findings (not generated)")
+    "scheduler-lag probe; F17 repaired; the lease-loss and remove-by-name refutations are outside the quantifier (not generated)")
